@@ -21,6 +21,12 @@ How it reads (semantically, not by spelling; helpers in `astutil_G4.py`; nothing
 * The post-processing functions: constants are evaluated (`FnEnv.const`: arithmetic, hoisted locals, class
   attributes), the tests that force a prefix on sp/zr are read through loops over constant tables, and variables
   are identified by the dictionary key they were read from, not by their name.
+* Helper methods: before a post-processing function is read, calls of private / static helper methods of the
+  class are replaced by the helper's statements (`astutil_G5.inline_helpers`: arguments substituted, locals renamed
+  apart, guard clauses turned into if/else, the returned value bound to a local; two levels deep), so "extract
+  method" (`self._force_x_prefix_for_alias(base, "sp")`, `self._copy_with_index(reg, index)`) reads like the
+  inline code.  If the function still has not the expected shape, the public methods it calls are substituted too
+  and the reading is tried once more (`_with_helpers`).
 * `parse_file`: loop or comprehension (`astutil_G4.read_parse_file`).
 
 Still insisted on (fails loudly otherwise): the six register alternatives in their order, the shapes of the two
@@ -46,7 +52,24 @@ def _load_util():
     return mod
 
 
+def _load_g5():
+    import importlib.util
+    if "astutil_G5" in sys.modules:
+        return sys.modules["astutil_G5"]
+    spec = importlib.util.spec_from_file_location(
+        "astutil_G5", os.path.join(os.path.dirname(os.path.abspath(__file__)), "astutil_G5.py"))
+    mod = importlib.util.module_from_spec(spec)
+    sys.modules["astutil_G5"] = mod
+    try:
+        spec.loader.exec_module(mod)
+    except BaseException:
+        del sys.modules["astutil_G5"]
+        raise
+    return mod
+
+
 U = _load_util()
+G5 = _load_g5()
 expect, only, unwrap = U.expect, U.only, U.unwrap
 from translate import TranslateError, generator, parse, txt, txt_list, HEADER  # noqa: E402
 
@@ -576,20 +599,33 @@ def read_memory(pm, interp):
     return r
 
 
-@generator("A64Grammar", [SRC, BASE, "../verif-self:tools/gen/a64grammar.py", "../verif-self:tools/gen/astutil_G4.py"])
-def gen_a64grammar():
-    tree = parse(SRC)
-    tb = parse(BASE)
-    cls = U.class_node(tree, "ParserAArch64")
-    bcls = U.class_node(tb, "BaseParser")
-    it = U.construct(tree, [cls, bcls])
-    g = read_grammar(it)
-    interp = U.Interp(tree, [cls, bcls])
+def _with_helpers(cls, bases, name, reader):
+    """`reader(<function>)` on the method `cls.name` after the bounded inter-procedural substitution of helpers
+    (astutil_G5.inline_helpers): an "extract method" refactoring of a post-processing function must not show.
 
-    m = read_memory(U.method(cls, "process_memory_address"), interp)
+    1. Helpers that cannot be part of the modelled API -- underscore-private methods and static methods of the
+       class (or of BaseParser) -- are ALWAYS substituted (two levels deep), so behaviour moved into, or added
+       through, such a helper is read like the rest of the function.
+    2. If the function then does not have the shape the reader expects, every method of the class that the function
+       calls is substituted as well (the stage methods `process_*` included) and the reader tries again; if that
+       fails too, the first error is reported."""
+    fn = U.method(cls, name)
+    classes = [cls] + list(bases)
+    a, used = G5.inline_helpers(fn, G5.class_resolver(classes, fn, only=G5.is_private_helper), depth=2)
+    try:
+        return reader(a if used else fn)
+    except TranslateError as first:
+        b, used_b = G5.inline_helpers(fn, G5.class_resolver(classes, fn), depth=2)
+        if not used_b or used_b == used:
+            raise
+        try:
+            return reader(b)
+        except TranslateError:
+            raise first
 
-    # sp as a plain operand: `<register>["name"].lower() == "sp"` selects process_sp_register
-    po_ = U.method(cls, "process_operand")
+
+def read_sp_operand(po_, interp):
+    """sp as a plain operand: `<register>["name"].lower() == "sp"` selects process_sp_register"""
     fenv = U.FnEnv(po_, interp)
     sp_names = []
     for n in ast.walk(po_):
@@ -604,7 +640,10 @@ def gen_a64grammar():
     stray = [v for v in U.const_strings(po_, fenv) if v not in ("list", "range", "name") and v not in sp_names]
     if len(sp_names) != 1 or stray:
         raise TranslateError("process_operand: expected exactly the 'sp' special case, got %r" % (sp_names + stray))
-    ps = U.method(cls, "process_sp_register")
+    return sp_names
+
+
+def read_sp_register(ps, interp):
     fenv = U.FnEnv(ps, interp)
     kw = {}
     for c in ast.walk(ps):
@@ -615,6 +654,43 @@ def gen_a64grammar():
                     kw[k.arg] = v
     if set(kw) != {"prefix", "name"} or not all(isinstance(v, str) for v in kw.values()):
         raise TranslateError("process_sp_register: RegisterOperand(prefix=.., name=..) expected")
+    return kw
+
+
+def read_immediate(pi):
+    """process_immediate: `<<` of base by int(shift)"""
+    if len([n for n in ast.walk(pi) if isinstance(n, ast.BinOp) and isinstance(n.op, ast.LShift)]) != 1:
+        raise TranslateError("process_immediate: shifted immediate is no longer `base << shift`")
+
+
+def read_range_list(rr, interp):
+    """resolve_range_list: range(int(a), int(b) + 1)"""
+    fenv = U.FnEnv(rr, interp)
+    ranges = [c for c in ast.walk(rr) if U.is_call(c, name="range") and len(c.args) == 2 and not c.keywords]
+    if len(ranges) != 1:
+        raise TranslateError("resolve_range_list: range(int(start), int(end) + c) not found")
+    terms, incl = U.linear(ranges[0].args[1], fenv)
+    lo_terms, lo_c = U.linear(ranges[0].args[0], fenv)
+    if len(terms) != 1 or list(terms.values()) != [1] or not list(terms)[0].startswith("int(") or incl < 0 \
+            or lo_c != 0 or len(lo_terms) != 1 or list(lo_terms.values()) != [1] or not list(lo_terms)[0].startswith("int("):
+        raise TranslateError("resolve_range_list: range(int(start), int(end) + c) not found")
+    return incl
+
+
+@generator("A64Grammar", [SRC, BASE, "../verif-self:tools/gen/a64grammar.py", "../verif-self:tools/gen/astutil_G4.py",
+                         "../verif-self:tools/gen/astutil_G5.py"])
+def gen_a64grammar():
+    tree = parse(SRC)
+    tb = parse(BASE)
+    cls = U.class_node(tree, "ParserAArch64")
+    bcls = U.class_node(tb, "BaseParser")
+    it = U.construct(tree, [cls, bcls])
+    g = read_grammar(it)
+    interp = U.Interp(tree, [cls, bcls])
+
+    m = _with_helpers(cls, [bcls], "process_memory_address", lambda fn: read_memory(fn, interp))
+    sp_names = _with_helpers(cls, [bcls], "process_operand", lambda fn: read_sp_operand(fn, interp))
+    kw = _with_helpers(cls, [bcls], "process_sp_register", lambda fn: read_sp_register(fn, interp))
 
     # parse_file: i + <c> + start_line ; split("\n") ; strip() == ""
     pf = U.read_parse_file(U.method(bcls, "parse_file"), U.Interp(tb, [bcls]))
@@ -626,21 +702,8 @@ def gen_a64grammar():
         raise TranslateError("parse_file: `i + <const> + start_line` not found")
     line_base = pf["const"]
 
-    # process_immediate: `<<` of base by int(shift)
-    pi = U.method(cls, "process_immediate")
-    if len([n for n in ast.walk(pi) if isinstance(n, ast.BinOp) and isinstance(n.op, ast.LShift)]) != 1:
-        raise TranslateError("process_immediate: shifted immediate is no longer `base << shift`")
-    # resolve_range_list: range(int(a), int(b) + 1)
-    rr = U.method(cls, "resolve_range_list")
-    fenv = U.FnEnv(rr, interp)
-    ranges = [c for c in ast.walk(rr) if U.is_call(c, name="range") and len(c.args) == 2 and not c.keywords]
-    if len(ranges) != 1:
-        raise TranslateError("resolve_range_list: range(int(start), int(end) + c) not found")
-    terms, incl = U.linear(ranges[0].args[1], fenv)
-    lo_terms, lo_c = U.linear(ranges[0].args[0], fenv)
-    if len(terms) != 1 or list(terms.values()) != [1] or not list(terms)[0].startswith("int(") or incl < 0 \
-            or lo_c != 0 or len(lo_terms) != 1 or list(lo_terms.values()) != [1] or not list(lo_terms)[0].startswith("int("):
-        raise TranslateError("resolve_range_list: range(int(start), int(end) + c) not found")
+    _with_helpers(cls, [bcls], "process_immediate", read_immediate)
+    incl = _with_helpers(cls, [bcls], "resolve_range_list", lambda fn: read_range_list(fn, interp))
 
     vec_prefixes, pred_chars = g["vec_prefixes"], g["pred_chars"]
     out = [HEADER, "namespace OsacaVerif.Gen.A64\n"]
